@@ -3,8 +3,47 @@
    Everything here is discrete: each theorem is closed under the global context (no axioms). *)
 From Coq Require Import List Arith ZArith Sorted.
 From GM Require Import Base.Res Base.StrItp Model.Itp Model.Topology Model.TopHeap
-  Proofs.TopologyGraph Proofs.TopHeapProofs.
+  Proofs.ItpSpec Proofs.TopologyGraph Proofs.TopHeapProofs Proofs.TopologyParse Proofs.TopologyExample Proofs.TopologyLoad.
 Import ListNotations.
+
+(* Reading.  `file_denotes ls t` (Proofs/TopologyParse.v) says that the lines ls CARRY the topology t under any
+   decoration: sections moleculetype / atoms / bonds / constraints / pairs in any order and any number of
+   occurrences, other sections of plain kind, header text, comment, blank and preprocessor lines anywhere,
+   any white space, trailing comments, any spelling of the integers that int() accepts; t lists the atoms
+   (number, name, residue name, residue number) and the numbered pairs of the three bond sections.
+   Then read_topology returns the name, the atoms in file order and the pairs of constraints, bonds, pairs
+   (in that order) translated to the 0-based positions of the atoms carrying those numbers.
+   Domain: ASCII text, pairwise distinct atom numbers (strictly increasing in particular), every pair
+   refers to listed numbers, no section literally named 'header'. *)
+Theorem C15_parse_render : forall text t,
+  file_denotes (lines text) t ->
+  ts_atoms t <> [] -> NoDup (map as_nr (ts_atoms t)) ->
+  (forall b, In b (ts_cons t ++ ts_bonds t ++ ts_pairs t) ->
+     In (fst b) (map as_nr (ts_atoms t)) /\ In (snd b) (map as_nr (ts_atoms t))) ->
+  exists bonds,
+    read_topology text = Ok (ts_name t, map info_of (ts_atoms t), bonds) /\
+    Forall2 (bond_at (map as_nr (ts_atoms t))) (ts_cons t ++ ts_bonds t ++ ts_pairs t) bonds /\
+    (forall b, In b bonds -> fst b < List.length (ts_atoms t) /\ snd b < List.length (ts_atoms t)).
+Proof. exact read_topology_render. Qed.
+Print Assumptions C15_parse_render.
+
+(* End to end (reader + MoleculeTop.__init__): under the same hypotheses the loaded molecule has the atoms of
+   the file in order (name, residue name, residue number, index = position) and atom j is in the bonds set of
+   atom i exactly when some listed pair names the numbers of atoms i and j, in either orientation. *)
+Theorem C15_load : forall text t,
+  file_denotes (lines text) t ->
+  ts_atoms t <> [] -> NoDup (map as_nr (ts_atoms t)) ->
+  (forall b, In b (ts_cons t ++ ts_bonds t ++ ts_pairs t) ->
+     In (fst b) (map as_nr (ts_atoms t)) /\ In (snd b) (map as_nr (ts_atoms t))) ->
+  exists atoms,
+    load_molecule text = Ok (ts_name t, atoms) /\ List.length atoms = List.length (ts_atoms t) /\
+    forall i a, nth_error (ts_atoms t) i = Some a ->
+      exists at_, nth_error atoms i = Some at_ /\ at_name at_ = as_name a /\ at_resname at_ = as_resname a /\
+        at_resid at_ = as_resid a /\ at_index at_ = i /\ StronglySorted lt (at_bonds at_) /\
+        forall j, In j (at_bonds at_) <->
+                  listed (map as_nr (ts_atoms t)) (ts_cons t ++ ts_bonds t ++ ts_pairs t) i j.
+Proof. exact load_molecule_render. Qed.
+Print Assumptions C15_load.
 
 (* Bond graph after MoleculeTop.__init__: for every atom position i the bonds set is duplicate-free and
    contains j exactly when (i,j) or (j,i) is a listed pair (so a self entry only if (i,i) is listed). *)
@@ -61,6 +100,14 @@ Theorem C15_copy_independent : forall h m v m' h', view h m = Ok v -> mol_copy h
   (forall ws, (forall w, In w ws -> fst w < List.length h) -> view (stores ws h') m' = Ok v).
 Proof. exact copy_independent_both. Qed.
 Print Assumptions C15_copy_independent.
+
+(* non-vacuity of C15_parse_render: a concrete decorated text (gapped numbers 7, 12, 40; [ pairs ] before the
+   atoms; a repeated [ atoms ]; '+12', '4_0'; a comment glued to the moleculetype fields) meets the hypotheses *)
+Example C15_nonvacuous_text : file_denotes (lines ex_text) ex_topo /\
+  (ts_atoms ex_topo <> [] /\ NoDup (map as_nr (ts_atoms ex_topo)) /\
+   (forall b, In b (ts_cons ex_topo ++ ts_bonds ex_topo ++ ts_pairs ex_topo) ->
+      In (fst b) (map as_nr (ts_atoms ex_topo)) /\ In (snd b) (map as_nr (ts_atoms ex_topo)))).
+Proof. exact (conj ex_denotes ex_side). Qed.
 
 (* non-vacuity: a 3-atom chain is a well-formed non-empty adjacency, and it is connected *)
 Example C15_nonvacuous_chain : are_connected [[1]; [0; 2]; [1]] = Ok true.
